@@ -56,8 +56,32 @@ def exact_float_bits(text, ty):
 
 def check(run):
     thorough = run.tier == 'thorough'
-    run.validate_translator(0 if thorough else 600)
     cov = run.evidence['coverage']
+    # correctly rounded floats: concrete literals through the real code (core's dec2flt is outside the solver's reach; see DESIGN section 6)
+    cases = []
+    for lit in FLOAT_LITERALS:
+        for h, ty in (('PF32', 'f32'), ('PF64', 'f64')):
+            cases.append(({'entry': 'run', 'device': 'TY', 'input': (h.encode() + b' ' + lit + b'\n').hex(), 'cap': None}, lit, ty))
+    obs = run.native([c for c, _, _ in cases])
+    viol = {}
+    float_checked = 0
+    for (case, lit, ty), o in zip(cases, obs):
+        calls = [e for e in o.get('events', []) if e[0] == 'call']
+        want = exact_float_bits(lit, ty)
+        float_checked += 1
+        if len(calls) != 1 or calls[0][2][0] != [ty, str(want)]:
+            viol[f'FLOAT:{ty}'] = {'rule': 'FLOAT', 'what': f'{ty} parameter written as {lit.decode()} must be delivered as bits {want} (correctly rounded); the real code delivered {calls}',
+                                   'input': case['input'], 'device': 'TY', 'want': [ty, str(want)], 'role': f'FLOAT:{ty}:rounding'}
+    cov['vacuity']['concrete_float_literals_checked_natively'] = float_checked
+    # translator validation; when the native float stage above already shows a wrong value, an executor that stops at an unknown
+    # construct must not hide it
+    try:
+        run.validate_translator(0 if thorough else 600)
+    except Inconclusive as e:
+        if not viol:
+            raise
+        run.log(f'[C03] translator validation stopped ({str(e)[:120]}); the natively observed float violations are reported')
+        return {'violations': [dict(v, property='C03') for _, v in sorted(viol.items())], 'exhaustive': False}
     st = run.explore('twin (every delivered value declared wrong)', ARG + ({'handler': 'PU8', 'L': 3, 'twin': True},), 300)
     tv = sum(1 for r in st['records'] if r.get('violations'))
     cov['vacuity']['twin_violations'] = tv
@@ -83,22 +107,6 @@ def check(run):
         records.extend(st['records'])
     st = run.explore('arity: N0..N10 with 0..11 parameters', ARITY + ({},), 300)
     records.extend(st['records'])
-    # correctly rounded floats: concrete literals through the real code (core's dec2flt is outside the solver's reach; see DESIGN section 6)
-    cases = []
-    for lit in FLOAT_LITERALS:
-        for h, ty in (('PF32', 'f32'), ('PF64', 'f64')):
-            cases.append(({'entry': 'run', 'device': 'TY', 'input': (h.encode() + b' ' + lit + b'\n').hex(), 'cap': None}, lit, ty))
-    obs = run.native([c for c, _, _ in cases])
-    viol = {}
-    float_checked = 0
-    for (case, lit, ty), o in zip(cases, obs):
-        calls = [e for e in o.get('events', []) if e[0] == 'call']
-        want = exact_float_bits(lit, ty)
-        float_checked += 1
-        if len(calls) != 1 or calls[0][2][0] != [ty, str(want)]:
-            viol[f'FLOAT:{ty}'] = {'rule': 'FLOAT', 'what': f'{ty} parameter written as {lit.decode()} must be delivered as bits {want} (correctly rounded); the real code delivered {calls}',
-                                   'input': case['input'], 'device': 'TY', 'want': [ty, str(want)], 'role': f'FLOAT:{ty}:rounding'}
-    cov['vacuity']['concrete_float_literals_checked_natively'] = float_checked
     classes = {}
     for r in records:
         if r.get('class'):
